@@ -4,8 +4,10 @@ import (
 	"bufio"
 	"context"
 	"fmt"
+	"math"
 	"math/rand"
 	"os"
+	"runtime"
 	"strconv"
 	"strings"
 	"sync"
@@ -43,12 +45,97 @@ type world struct {
 	born     int64
 	thr      int64 // OutdatedThreshold of the schedulers of this world
 	badWrap  int
+	retry    int64 // RetryInterval of the schedulers (0: the default)
+	recv     bool  // a goroutine is parked in a receive on the (unbuffered) MisfiredChan whenever a fetch is made
+	recvMu   sync.Mutex
+	recvGot  []quartz.ScheduledJob
+	recvDone chan struct{}
+}
+
+// wopt: the configuration of a step world beyond queue variant and MisfiredChan capacity.
+type wopt struct {
+	thr   int64
+	recv  bool  // misCap 0 only: a receiver goroutine waits on the channel
+	retry int64 // WithRetryInterval (0: default)
 }
 
 func newWorld(variant string, misCap int) *world { return newWorldThr(variant, misCap, thrNS) }
 
 func newWorldThr(variant string, misCap int, thr int64) *world {
-	w := &world{variant: variant, locker: &recLocker{}, born: quartz.NowNano(), thr: thr}
+	return newWorldOpt(variant, misCap, wopt{thr: thr})
+}
+
+// misReceiver is the listener of an unbuffered MisfiredChan: parked in the receive, it records what it is handed and
+// goes back to the receive. A nil job (sent by the harness itself) ends it.
+func (w *world) misReceiver() {
+	defer close(w.recvDone)
+	for {
+		m := <-w.misfired
+		if m == nil {
+			return
+		}
+		w.recvMu.Lock()
+		w.recvGot = append(w.recvGot, m)
+		w.recvMu.Unlock()
+	}
+}
+
+// receiverParked reports whether the misReceiver goroutine is blocked in its channel receive (read off the runtime's
+// goroutine dump: the goroutine is in state waiting with reason "chan receive", i.e. it is enqueued on the channel).
+func receiverParked() bool {
+	buf := make([]byte, 1<<16)
+	for {
+		n := runtime.Stack(buf, true)
+		if n < len(buf) {
+			buf = buf[:n]
+			break
+		}
+		buf = make([]byte, 2*len(buf))
+	}
+	for _, g := range strings.Split(string(buf), "\n\n") {
+		if strings.Contains(g, "main.(*world).misReceiver") {
+			hdr := g
+			if i := strings.IndexByte(g, '\n'); i >= 0 {
+				hdr = g[:i]
+			}
+			return strings.Contains(hdr, "[chan receive")
+		}
+	}
+	return false
+}
+
+// waitReceiver waits (up to 5 s) until the listener is parked in its receive again.
+func (w *world) waitReceiver() bool {
+	deadline := time.Now().Add(5 * time.Second)
+	for i := 0; ; i++ {
+		if receiverParked() {
+			return true
+		}
+		if time.Now().After(deadline) {
+			return false
+		}
+		if i < 20 {
+			runtime.Gosched()
+		} else {
+			time.Sleep(50 * time.Microsecond)
+		}
+	}
+}
+
+func (w *world) takeReceived() []quartz.ScheduledJob {
+	w.recvMu.Lock()
+	defer w.recvMu.Unlock()
+	g := w.recvGot
+	w.recvGot = nil
+	return g
+}
+
+// fillMark: what the harness itself puts into a buffered MisfiredChan to occupy slots (a listener that is behind).
+var fillMark = quartz.VerifNewScheduledJob(quartz.NewJobDetail(noJob, quartz.NewJobKey("-fill-")), nil, 0)
+
+func newWorldOpt(variant string, misCap int, wo wopt) *world {
+	thr := wo.thr
+	w := &world{variant: variant, locker: &recLocker{}, born: quartz.NowNano(), thr: thr, retry: wo.retry}
 	var inner quartz.JobQueue = quartz.NewJobQueue()
 	if variant[1] == 'c' {
 		inner = &copyQueue{inner}
@@ -66,6 +153,9 @@ func newWorldThr(variant string, misCap int, thr int64) *world {
 		opts := []quartz.SchedulerOpt{quartz.WithQueue(w.rq, w.locker), quartz.WithOutdatedThreshold(time.Duration(thr))}
 		if w.misfired != nil {
 			opts = append(opts, quartz.WithMisfiredChan(w.misfired))
+		}
+		if wo.retry > 0 {
+			opts = append(opts, quartz.WithRetryInterval(time.Duration(wo.retry)))
 		}
 		s, err := quartz.NewStdScheduler(opts...)
 		if err != nil {
@@ -85,10 +175,23 @@ func newWorldThr(variant string, misCap int, thr int64) *world {
 		}
 		w.scheds = append(w.scheds, s)
 	}
+	if wo.recv && misCap == 0 {
+		w.recv = true
+		w.recvDone = make(chan struct{})
+		go w.misReceiver()
+	}
 	return w
 }
 
 func (w *world) close() {
+	if w.recv {
+		select {
+		case w.misfired <- nil: // ends the listener
+			<-w.recvDone
+		case <-time.After(5 * time.Second):
+		}
+		w.recv = false
+	}
 	for i, s := range w.scheds {
 		if w.variant[0] == 's' {
 			s.Stop()
@@ -120,6 +223,9 @@ type op struct {
 	text       string // A: "S name group r s tid" ...; X: "push ..." ; F: ""
 	sched      int
 	run        func(s quartz.Scheduler) string // A / X: performs the call, returns the result class
+	wait       time.Duration                   // F: the harness sleeps that long before the fetch (the clock passes an instant)
+	misFill    int                             // F, buffered MisfiredChan: 1 = the channel is full before the fetch, 2 = exactly one slot is free
+	late       func() op                       // the op is built when its turn comes (fire times placed relative to the clock of that moment)
 }
 
 var noJob = &rjob{key: "-"}
@@ -255,11 +361,35 @@ func (w *world) opForeignClear() op {
 	}}
 }
 
-// step performs one op and returns (driver command, observation without registry).
-func (w *world) step(o op) (string, string) {
+// step performs one op and returns (driver command, observation without registry, extra facts for the oracles).
+// Extra facts of a fetch: after=<clock reading taken after the step> [waited=<ns slept before it>] [recv=<listener state>].
+func (w *world) step(o op) (string, string, string) {
 	s := w.scheds[o.sched%len(w.scheds)]
 	w.calls = w.calls[:0]
+	extra := ""
+	recvReady := false
+	if o.kind == 'F' {
+		if o.wait > 0 {
+			time.Sleep(o.wait)
+			extra += fmt.Sprintf(" waited=%d", int64(o.wait))
+		}
+		if w.misfired != nil && cap(w.misfired) > 0 && o.misFill > 0 {
+			free := 0
+			if o.misFill == 2 {
+				free = 1
+			}
+			for len(w.misfired) < cap(w.misfired)-free {
+				w.misfired <- fillMark
+			}
+			extra += fmt.Sprintf(" misfired-chan=%d/%d", len(w.misfired), cap(w.misfired))
+		}
+		if w.recv {
+			recvReady = w.waitReceiver()
+			extra += " listener-parked-in-receive=" + b01(recvReady)
+		}
+	}
 	tb := quartz.NowNano()
+	var ta int64
 	var obs string
 	hint := "- -"
 	switch o.kind {
@@ -296,8 +426,9 @@ func (w *world) step(o op) (string, string) {
 		case <-done:
 		case <-time.After(10 * time.Second):
 			aborted = true // a blocked fetch holds the queue locker for ever: nothing more can be learnt from this process
-			return "F 0 0 - -", "BLOCKED"
+			return "F 0 0 - -", "BLOCKED", ""
 		}
+		ta = quartz.NowNano() // the fetch has returned: whatever it classified, it did so at a clock reading <= ta
 		w.fq.failNext.Store(false)
 		r := "none"
 		if err != nil {
@@ -307,12 +438,30 @@ func (w *world) step(o op) (string, string) {
 			hint = job.JobDetail().JobKey().Name() + " " + job.JobDetail().JobKey().Group()
 		}
 		mis := "-"
-		if w.misfired != nil && len(w.misfired) > mbefore {
-			// delivered: read it back (keeps room for the next one when the buffer is small)
-			m := <-w.misfired
-			mis = "M" + strconv.FormatInt(m.NextRunTime(), 10)
-		} else if w.misfired == nil || cap(w.misfired) == 0 {
+		switch {
+		case w.recv:
+			// unbuffered with a listener that was parked in its receive before the fetch: a non-blocking offer is handed over
+			// directly; the listener leaves the waiting state inside the send, so once it is parked again it has recorded it
+			mis = "?"
+			if recvReady && w.waitReceiver() {
+				mis = "-"
+				for _, m := range w.takeReceived() {
+					mis = "M" + strconv.FormatInt(m.NextRunTime(), 10)
+				}
+			}
+		case w.misfired == nil || cap(w.misfired) == 0:
 			mis = "?" // no channel or unbuffered without a receiver: an offer cannot be seen
+		default:
+			full := mbefore == cap(w.misfired)
+			// read back what is there (keeps room for the next one); the harness's own fillers are dropped
+			for len(w.misfired) > 0 {
+				if m := <-w.misfired; m != fillMark {
+					mis = "M" + strconv.FormatInt(m.NextRunTime(), 10)
+				}
+			}
+			if full && mis == "-" {
+				mis = "?" // no room: the offer could not be taken (and must not block)
+			}
 		}
 		tok := "r" + b01(quartz.VerifInterruptPending(s))
 		if tokBefore {
@@ -320,7 +469,9 @@ func (w *world) step(o op) (string, string) {
 		}
 		obs = r + " " + callsStr(w.calls) + " " + mis + " " + tok
 	}
-	ta := quartz.NowNano()
+	if ta == 0 {
+		ta = quartz.NowNano()
+	}
 	now := tb
 	for _, c := range w.calls {
 		if c.prev >= tb && c.prev <= ta {
@@ -336,15 +487,15 @@ func (w *world) step(o op) (string, string) {
 		} else if o.removeFail {
 			c = "AXR"
 		}
-		return fmt.Sprintf("%s %d %s", c, now, o.text), obs + " " + callsStr(w.calls)
+		return fmt.Sprintf("%s %d %s", c, now, o.text), obs + " " + callsStr(w.calls), ""
 	case 'X':
-		return "X " + o.text, obs
+		return "X " + o.text, obs, ""
 	default:
 		c := "F"
 		if o.pushFail {
 			c = "FX"
 		}
-		return fmt.Sprintf("%s %d %d %s", c, now, w.thr, hint), obs
+		return fmt.Sprintf("%s %d %d %s", c, now, w.thr, hint), obs, fmt.Sprintf("after=%d", ta) + extra
 	}
 }
 
@@ -375,6 +526,14 @@ func trigMaker(kind string) func(w *world) *rtrig {
 			return w.addTrig(newOnce(0, futNS, false))
 		case "rx":
 			return w.addTrig(newOnce(0, futNS, true))
+		case "mx": // a trigger whose next fire time is math.MaxInt64 ("never"), nil error
+			return w.addTrig(newScript(0, nil, fire{math.MaxInt64, -1}))
+		case "m1":
+			return w.addTrig(newScript(0, nil, fire{math.MaxInt64 - 1, -1}))
+		case "mn": // ... math.MinInt64 (the entry is outdated at once: never-started / stopped schedulers only)
+			return w.addTrig(newScript(0, nil, fire{math.MinInt64, -1}))
+		case "xm": // first MaxInt64, afterwards one less
+			return w.addTrig(newScript(0, []fire{{math.MaxInt64, -1}}, fire{math.MaxInt64 - 1, -1}))
 		default:
 			return w.addTrig(newFail(0, 7))
 		}
@@ -400,6 +559,14 @@ func alphabet(size string) []protoOp {
 	if size == "small" {
 		keys = [][2]string{{"a", "default"}, {"a", "g"}}
 		trigs = []string{"si", "rx"}
+		opts = opts[:3]
+	}
+	if size == "extreme" || size == "extreme-started" { // fire times at the ends of int64 (scripted triggers)
+		keys = [][2]string{{"a", "default"}, {"a", "g"}}
+		trigs = []string{"mx", "m1", "mn", "xm"}
+		if size == "extreme-started" { // a started loop must not find anything due
+			trigs = []string{"mx", "m1", "xm"}
+		}
 		opts = opts[:3]
 	}
 	for _, k := range keys {
@@ -468,7 +635,7 @@ func runExhaustive(e *emitter, st *stats, size string, depth int, variants []str
 					cmds = append(cmds, fmt.Sprintf("T %d %s", t.id, t.spec))
 					obss = append(obss, "ok")
 				}
-				c, ob := w.step(o)
+				c, ob, _ := w.step(o)
 				cmds = append(cmds, c)
 				obss = append(obss, ob)
 				st.calls++
@@ -500,6 +667,9 @@ func runExhaustive(e *emitter, st *stats, size string, depth int, variants []str
 // random sequences: API only (any life-cycle variant) or API + fetch + foreign (never-started schedulers)
 // ---------------------------------------------------------------------------
 
+// nearMargins: how far ahead of the clock a "not quite due" fire time is placed (ns): 1 us .. 900 us and 1 .. 5 ms.
+var nearMargins = []int64{1_000, 5_000, 20_000, 100_000, 300_000, 500_000, 900_000, 1_000_000, 2_000_000, 5_000_000}
+
 func (w *world) randomOp(r *rand.Rand, withFetch bool, base int64) op {
 	names := []string{"a", "b"}
 	groups := []string{"default", "g"}
@@ -511,9 +681,34 @@ func (w *world) randomOp(r *rand.Rand, withFetch bool, base int64) op {
 	pick := r.Intn(100)
 	mkTrig := func() *rtrig {
 		if !withFetch {
-			return trigMaker([]string{"si", "si", "ro", "rx", "fl"}[r.Intn(5)])(w)
+			return trigMaker([]string{"si", "si", "ro", "rx", "fl", "si", "si", "ro", "rx", "fl", "mx", "m1", "xm"}[r.Intn(13)])(w)
 		}
-		switch r.Intn(10) {
+		errKind := func() fire { // the ways a trigger can fail: the bare sentinel, the sentinel wrapped with %w, unrelated errors
+			return fire{0, []int{0, wrappedExpired, 1, 2}[r.Intn(4)]}
+		}
+		switch r.Intn(13) {
+		case 10:
+			// fire times a little ahead of the clock of this moment: 1 us .. 900 us and 1 .. 5 ms, each after the one before
+			n := 1 + r.Intn(4)
+			sc := make([]fire, n)
+			at := quartz.NowNano()
+			for i := range sc {
+				at += nearMargins[r.Intn(len(nearMargins))] + int64(r.Intn(1000))
+				sc[i] = fire{at, -1}
+			}
+			return w.addTrig(newScript(0, sc, fire{base + futNS, -1}))
+		case 11:
+			// due fire times, then the trigger fails (at its 2nd, 3rd, ... call) in one of the ways
+			n := 1 + r.Intn(3)
+			sc := make([]fire, n+1)
+			for i := 0; i < n; i++ {
+				sc[i] = fire{base + dueNS + int64(i)*int64(time.Millisecond) + int64(r.Intn(1000))*1000, -1}
+			}
+			sc[n] = errKind()
+			return w.addTrig(newScript(0, sc, errKind()))
+		case 12:
+			// "never": the end of the int64 range as a fire time
+			return w.addTrig(newScript(0, []fire{{base + dueNS, -1}}, fire{math.MaxInt64 - int64(r.Intn(2)), -1}))
 		case 0:
 			return w.addTrig(newOnce(0, dueNS, false)) // fires once, on time
 		case 1:
@@ -536,7 +731,7 @@ func (w *world) randomOp(r *rand.Rand, withFetch bool, base int64) op {
 				off := []int64{dueNS, dueNS, lateNS, futNS, dueNS + int64(i+1)*int64(time.Millisecond)}[r.Intn(5)]
 				sc[i] = fire{base + off + int64(r.Intn(1000))*1000, -1}
 				if r.Intn(12) == 0 {
-					sc[i] = fire{0, r.Intn(3)}
+					sc[i] = errKind()
 				}
 			}
 			d := fire{base + futNS, -1}
@@ -551,14 +746,26 @@ func (w *world) randomOp(r *rand.Rand, withFetch bool, base int64) op {
 	case withFetch && pick < 3:
 		o = op{kind: 'F', pushFail: true}
 	case withFetch && pick < 38:
-		o = op{kind: 'F'}
+		o = op{kind: 'F', misFill: []int{0, 0, 1, 2}[r.Intn(4)]}
+		switch r.Intn(25) {
+		case 0: // the clock passes the instant "now + RetryInterval" of an earlier step
+			if w.retry > 0 {
+				o.wait = time.Duration(w.retry) + 200*time.Microsecond
+			}
+		case 1:
+			o.wait = 300 * time.Microsecond
+		}
 	case withFetch && pick < 44:
 		if len(w.trigs) == 0 || r.Intn(2) == 0 {
 			mkTrig()
 		}
 		t := w.trigs[r.Intn(len(w.trigs))]
 		off := []int64{dueNS, lateNS, futNS}[r.Intn(3)]
-		o = w.opForeignPush(name, group, base+off+int64(r.Intn(1000))*1000, r.Intn(5) == 0, r.Intn(2) == 0, t)
+		prio := base + off + int64(r.Intn(1000))*1000
+		if r.Intn(4) == 0 { // a little ahead of the clock of this moment
+			prio = quartz.NowNano() + nearMargins[r.Intn(len(nearMargins))] + int64(r.Intn(1000))
+		}
+		o = w.opForeignPush(name, group, prio, r.Intn(5) == 0, r.Intn(2) == 0, t)
 	case withFetch && pick < 46:
 		o = w.opForeignRemove(name, group)
 	case withFetch && pick < 47:
@@ -617,22 +824,29 @@ func runRandom(e *emitter, st *stats, r *rand.Rand, nseq, depth int, withFetch b
 		for attempt := 0; ; attempt++ {
 			rr := rand.New(rand.NewSource(seed))
 			variant := variants[n%len(variants)]
-			misCap := []int{-1, 0, 1, 64}[rr.Intn(4)]
+			// MisfiredChan: none, unbuffered without / with a listener parked in the receive, capacity 1, 2, 64
+			mi := rr.Intn(6)
+			misCap := []int{-1, 0, 0, 1, 2, 64}[mi]
+			wo := wopt{thr: thrNS, recv: mi == 2}
 			if !withFetch {
-				misCap = 4
+				misCap, wo.recv = 4, false
 			}
-			thr := thrNS
 			if withFetch {
 				switch rr.Intn(8) { // the boundary settings of OutdatedThreshold
 				case 0:
-					thr = 0
+					wo.thr = 0
 				case 1:
-					thr = int64(1<<63 - 1)
+					wo.thr = int64(1<<63 - 1)
+				}
+				if rr.Intn(2) == 0 { // a short RetryInterval: an instant "now + RetryInterval" is reached within the sequence
+					wo.retry = int64(time.Millisecond)
 				}
 			}
-			w := newWorldThr(variant, misCap, thr)
+			thr := wo.thr
+			w := newWorldOpt(variant, misCap, wo)
 			var lines []string
-			lines = append(lines, fmt.Sprintf("# seq %d variant %s miscap %d thr %d", e.seq, variant, misCap, thr), "reset "+w.qkind()+"\tok")
+			lines = append(lines, fmt.Sprintf("# seq %d variant %s miscap %d%s thr %d retry %d", e.seq, variant, misCap,
+				map[bool]string{true: " listener", false: ""}[wo.recv], thr, wo.retry), "reset "+w.qkind()+"\tok")
 			stalled := false
 			for i := 0; i < depth; i++ {
 				ntr := len(w.trigs)
@@ -640,14 +854,17 @@ func runRandom(e *emitter, st *stats, r *rand.Rand, nseq, depth int, withFetch b
 				for _, t := range w.trigs[ntr:] {
 					lines = append(lines, fmt.Sprintf("T %d %s\tok", t.id, t.spec))
 				}
-				c, ob := w.step(o)
+				c, ob, ex := w.step(o)
 				st.calls++
 				if ob == "BLOCKED" {
 					st.blocked++
 					lines = append(lines, c+"\t"+ob)
 					break
 				}
-				lines = append(lines, c+"\t"+ob+" | "+registry(w.scheds[0]))
+				if ex != "" {
+					ex = "\t" + ex
+				}
+				lines = append(lines, c+"\t"+ob+" | "+registry(w.scheds[0])+ex)
 				if withFetch && quartz.NowNano()-w.born > stallNS {
 					stalled = true
 					break
@@ -685,15 +902,24 @@ func runRandom(e *emitter, st *stats, r *rand.Rand, nseq, depth int, withFetch b
 
 func runDirected(e *emitter, st *stats, only int) {
 	type sc struct {
-		name string
-		run  func(w *world) []op
+		name    string
+		run     func(w *world) []op
+		variant string // "" = by name (see below)
+		misCap  int
+		wo      wopt
 	}
 	f := op{kind: 'F'}
 	var scenarios []sc
 	for _, qv := range []string{"nd", "nc", "nh"} {
-		for _, mc := range []int{-1, 0, 1, 8} {
+		for _, mc := range []int{-1, 0, 1, 8, -2} {
 			qv, mc := qv, mc
-			scenarios = append(scenarios, sc{fmt.Sprintf("classify %s miscap %d", qv, mc), func(w *world) []op {
+			name := fmt.Sprintf("classify %s miscap %d", qv, mc)
+			var wo wopt
+			if mc == -2 { // unbuffered, with a listener parked in the receive
+				mc, wo.recv = 0, true
+				name = fmt.Sprintf("classify %s miscap 0 listener", qv)
+			}
+			scenarios = append(scenarios, sc{name: name, misCap: mc, wo: wo, run: func(w *world) []op {
 				b := w.born
 				late := w.addTrig(newScript(0, []fire{{b + lateNS, -1}, {b + dueNS, -1}, {b + futNS, -1}}, fire{0, 0}))
 				due := w.addTrig(newScript(0, []fire{{b + dueNS - 1000, -1}, {b + dueNS + 1000, -1}, {0, 0}}, fire{0, 0}))
@@ -712,12 +938,12 @@ func runDirected(e *emitter, st *stats, only int) {
 			}})
 		}
 	}
-	scenarios = append(scenarios, sc{"pause-between-fetches", func(w *world) []op {
+	scenarios = append(scenarios, sc{name: "pause-between-fetches", run: func(w *world) []op {
 		t := w.addTrig(newSimple(0, dueNS))
 		return []op{w.opSchedule("a", "default", false, false, t, false), f, w.opKey('P', "a", "default"), f, f,
 			w.opKey('R', "a", "default"), f, f, f, f, f, w.opKey('D', "a", "default"), f}
 	}})
-	scenarios = append(scenarios, sc{"foreign-and-shared", func(w *world) []op {
+	scenarios = append(scenarios, sc{name: "foreign-and-shared", run: func(w *world) []op {
 		t := w.addTrig(newSimple(0, dueNS))
 		u := w.addTrig(newSimple(0, futNS))
 		b := w.born
@@ -728,7 +954,7 @@ func runDirected(e *emitter, st *stats, only int) {
 	}})
 	for _, qv := range []string{"nd", "nc", "nh"} {
 		qv := qv
-		scenarios = append(scenarios, sc{"pushfail " + qv, func(w *world) []op {
+		scenarios = append(scenarios, sc{name: "pushfail " + qv, run: func(w *world) []op {
 			b := w.born
 			fx := op{kind: 'F', pushFail: true}
 			t := w.addTrig(newScript(0, []fire{{b + dueNS, -1}, {b + dueNS + 1000, -1}, {b + dueNS + 2000, -1}, {b + futNS, -1}}, fire{0, 0}))
@@ -744,7 +970,7 @@ func runDirected(e *emitter, st *stats, only int) {
 	}
 	for _, qv := range []string{"nd", "nc"} {
 		qv := qv
-		scenarios = append(scenarios, sc{"apifault " + qv, func(w *world) []op {
+		scenarios = append(scenarios, sc{name: "apifault " + qv, run: func(w *world) []op {
 			t := w.addTrig(newSimple(0, futNS))
 			u := w.addTrig(newSimple(0, futNS))
 			rf := func(o op) op { o.removeFail = true; return o }
@@ -764,6 +990,88 @@ func runDirected(e *emitter, st *stats, only int) {
 			}
 		}})
 	}
+	// MisfiredChan of every shape: unbuffered with a listener parked in the receive, capacity 1, 2, 8; empty, full (no room: the
+	// offer cannot be taken and must not block), exactly one free slot. Four outdated jobs, one fetch each.
+	for _, mc := range []int{-2, 1, 2, 8} {
+		mc := mc
+		name := fmt.Sprintf("misfired-chan cap %d", mc)
+		var wo wopt
+		if mc == -2 {
+			mc, wo.recv = 0, true
+			name = "misfired-chan cap 0 listener"
+		}
+		for _, qv := range []string{"nd", "nh"} {
+			scenarios = append(scenarios, sc{name: name + " " + qv, variant: qv, misCap: mc, wo: wo, run: func(w *world) []op {
+				b := w.born
+				var ops []op
+				for i, k := range [][2]string{{"a", "default"}, {"b", "default"}, {"a", "g"}, {"b", "g"}} {
+					t := w.addTrig(newScript(0, []fire{{b + lateNS + int64(i)*1000, -1}, {b + futNS, -1}}, fire{0, 0}))
+					ops = append(ops, w.opSchedule(k[0], k[1], false, false, t, false))
+				}
+				return append(ops, op{kind: 'F'}, op{kind: 'F', misFill: 1, sched: 1}, op{kind: 'F', misFill: 2}, op{kind: 'F', sched: 1}, f)
+			}})
+		}
+	}
+	// a trigger that fails at its 2nd or 3rd call -- with the bare ErrTriggerExpired, with the sentinel wrapped (%w), with an unrelated
+	// error -- when its last fire time is dequeued on time or outdated: the job leaves the registry; nothing is executed later, also
+	// not after the clock has passed now + RetryInterval (2 ms here, once the default 100 ms)
+	for _, kind := range []int{0, wrappedExpired, 1} {
+		for _, ncall := range []int{2, 3} {
+			for _, lastLate := range []bool{false, true} {
+				kind, ncall, lastLate := kind, ncall, lastLate
+				retry := int64(2 * time.Millisecond)
+				name := fmt.Sprintf("trigger-error %s at call %d last-late %v retry %d", fire{0, kind}.item(), ncall, lastLate, retry)
+				if kind == 1 && ncall == 2 && !lastLate {
+					retry = 0
+					name = fmt.Sprintf("trigger-error %s at call %d last-late %v retry default", fire{0, kind}.item(), ncall, lastLate)
+				}
+				scenarios = append(scenarios, sc{name: name, variant: "nd", misCap: 8, wo: wopt{retry: retry}, run: func(w *world) []op {
+					b := w.born
+					var script []fire
+					for i := 0; i < ncall-1; i++ {
+						script = append(script, fire{b + dueNS + int64(i)*int64(time.Millisecond), -1})
+					}
+					if lastLate {
+						script[len(script)-1] = fire{b + lateNS, -1}
+					}
+					script = append(script, fire{0, kind})
+					t := w.addTrig(newScript(0, script, fire{0, kind}))
+					u := w.addTrig(newSimple(0, futNS))
+					pause := time.Duration(retry) + time.Millisecond
+					if retry == 0 {
+						pause = 102 * time.Millisecond
+					}
+					ops := []op{w.opSchedule("a", "default", false, false, t, false), w.opSchedule("b", "g", false, false, u, false)}
+					for i := 0; i < ncall-1; i++ {
+						ops = append(ops, f)
+					}
+					return append(ops, f, op{kind: 'F', wait: pause}, f, w.opKey('G', "a", "default"), w.opKeys())
+				}})
+			}
+		}
+	}
+	// fire times a little ahead of the clock (1 us .. 5 ms), placed when their turn comes, each followed at once by a fetch: a fetch
+	// that ends before the fire time must not hand the job out
+	for _, qv := range []string{"nd", "nc", "nh"} {
+		qv := qv
+		scenarios = append(scenarios, sc{name: "near-future " + qv, variant: qv, misCap: 8, run: func(w *world) []op {
+			u := w.addTrig(newSimple(0, futNS))
+			var ops []op
+			for i, m := range nearMargins {
+				i, m := i, m
+				if i%2 == 0 {
+					ops = append(ops, op{late: func() op { return w.opForeignPush("a", "g", quartz.NowNano()+m, false, true, u) }})
+				} else {
+					ops = append(ops, op{late: func() op {
+						t := w.addTrig(newScript(0, []fire{{quartz.NowNano() + m, -1}}, fire{w.born + futNS, -1}))
+						return w.opSchedule("a", "g", true, false, t, false)
+					}})
+				}
+				ops = append(ops, op{kind: 'F', sched: i})
+			}
+			return ops
+		}})
+	}
 	for i, s := range scenarios {
 		if aborted {
 			return
@@ -779,12 +1087,18 @@ func runDirected(e *emitter, st *stats, only int) {
 		} else if strings.HasPrefix(s.name, "pushfail") {
 			fmt.Sscanf(s.name, "pushfail %s", &variant)
 		} else if strings.HasPrefix(s.name, "classify") {
-			fmt.Sscanf(s.name, "classify %s miscap %d", &variant, &misCap)
+			fmt.Sscanf(s.name, "classify %s", &variant)
+			misCap = s.misCap
 		} else if s.name == "foreign-and-shared" {
 			variant = "nh"
 		}
+		if s.variant != "" {
+			variant, misCap = s.variant, s.misCap
+		}
 		_ = i
-		w := newWorld(variant, misCap)
+		wo := s.wo
+		wo.thr = thrNS
+		w := newWorldOpt(variant, misCap, wo)
 		fmt.Fprintf(e.w, "# seq %d variant %s miscap %d directed %s\n", e.seq, variant, misCap, s.name)
 		fmt.Fprintf(e.w, "reset %s\tok\n", w.qkind())
 		ops := s.run(w)
@@ -792,14 +1106,26 @@ func runDirected(e *emitter, st *stats, only int) {
 			fmt.Fprintf(e.w, "T %d %s\tok\n", t.id, t.spec)
 		}
 		for _, o := range ops {
-			c, ob := w.step(o)
+			if o.late != nil { // built now: fire times relative to the clock of this moment
+				ntr := len(w.trigs)
+				sch := o.sched
+				o = o.late()
+				o.sched = sch
+				for _, t := range w.trigs[ntr:] {
+					fmt.Fprintf(e.w, "T %d %s\tok\n", t.id, t.spec)
+				}
+			}
+			c, ob, ex := w.step(o)
 			st.calls++
 			if ob == "BLOCKED" {
 				st.blocked++
 				fmt.Fprintf(e.w, "%s\t%s\n", c, ob)
 				break
 			}
-			fmt.Fprintf(e.w, "%s\t%s | %s\n", c, ob, registry(w.scheds[0]))
+			if ex != "" {
+				ex = "\t" + ex
+			}
+			fmt.Fprintf(e.w, "%s\t%s | %s%s\n", c, ob, registry(w.scheds[0]), ex)
 		}
 		if aborted {
 			st.sequences++
@@ -842,6 +1168,8 @@ func cmdSteps(args []string) {
 		runExhaustive(e, st, "small", 4, quiet, only)
 		runExhaustive(e, st, "small", 3, []string{"sd", "sh", "sc"}, only)
 		runExhaustive(e, st, "collide", 3, quiet, only)
+		runExhaustive(e, st, "extreme", 3, quiet, only)
+		runExhaustive(e, st, "extreme-started", 2, []string{"sd", "sh", "sc"}, only)
 		runExhaustive(e, st, "full", 2, all, only)
 		runExhaustive(e, st, "full", 1, all, only)
 		runRandom(e, st, r, 600, 60, false, all, only)
@@ -849,6 +1177,8 @@ func cmdSteps(args []string) {
 		runExhaustive(e, st, "small", 4, quiet, only)
 		runExhaustive(e, st, "small", 4, []string{"sd", "sh", "sc", "tc", "th"}, only)
 		runExhaustive(e, st, "collide", 4, quiet, only)
+		runExhaustive(e, st, "extreme", 4, []string{"nd", "nc", "nh"}, only)
+		runExhaustive(e, st, "extreme-started", 3, []string{"sd", "sh", "sc"}, only)
 		runExhaustive(e, st, "full4", 3, []string{"nd", "nc", "nh"}, only)
 		runExhaustive(e, st, "full", 2, all, only)
 		runExhaustive(e, st, "full", 1, all, only)
